@@ -138,6 +138,26 @@ pub fn run(op: &str, args: &[&str]) -> Option<String> {
             let d = AnalyzedSource::new(text).update(cs);
             Some(source_str(&d))
         }
+        "PROPINCTEXT" => {
+            // only the text layer of update (C08); a panic of the tree layer is C02's business
+            let text = unhex_str(args.first()?)?;
+            let cs = parse_changes(&args[1..])?;
+            let mut expected = text.clone();
+            for c in &cs {
+                if c.range.start > c.range.end || c.range.end > expected.len() || !expected.is_char_boundary(c.range.start) || !expected.is_char_boundary(c.range.end) {
+                    return Some("ok".into());
+                }
+                expected.replace_range(c.range.clone(), &c.text);
+            }
+            let d = AnalyzedSource::new(text);
+            match std::panic::catch_unwind(move || d.update(cs)) {
+                Ok(u) => Some(if u.text == expected { "ok".into() } else { "bad:text".into() }),
+                Err(_) => {
+                    let _ = crate::LAST_PANIC.lock().unwrap().take();
+                    Some("ok".into())
+                }
+            }
+        }
         "PROPINC" => {
             let text = unhex_str(args.first()?)?;
             let cs = parse_changes(&args[1..])?;
